@@ -31,10 +31,24 @@
 (*                 inside try/finally: asyncio.Lock.release() does not     *)
 (*                 check ownership);  FALSE = `async with`, the design     *)
 (*                                                                         *)
-(* Abort(d) (AllowAbort) is TransferManager.abort / pause / remove: the    *)
-(* download's task is cancelled wherever it is - waiting for the lock,     *)
-(* inside the reservation, downloading -, its file is removed and its path *)
-(* forgotten (transfer/state.py _cancel_transfer_tasks, _remove_local_file)*)
+(*   ForgetUncreated FALSE = the code as found: a download that leaves the *)
+(*                 prepare step (pause: task cancelled; OSError from the   *)
+(*                 directory creation / open) after its path was chosen    *)
+(*                 and before its file exists KEEPS the path;  TRUE =      *)
+(*                 repaired: a path chosen in this call and not yet        *)
+(*                 materialised is forgotten when the step is left         *)
+(*                                                                         *)
+(* Abort(d) (AllowAbort) is TransferManager.abort / remove: the download's *)
+(* task is cancelled wherever it is - waiting for the lock, inside the     *)
+(* reservation, downloading -, its file is removed and its path forgotten  *)
+(* (transfer/state.py _cancel_transfer_tasks, _remove_local_file).         *)
+(* Pause(d) (AllowPause) cancels the task the same way but removes nothing *)
+(* (InitializingState.pause / DownloadingState.pause).  IoError(d)         *)
+(* (AllowIoError) is an OSError raised by create_directory / open inside   *)
+(* the prepare step: the transfer is FAILED.  Resume(d) (AllowResume) is   *)
+(* the re-queue and restart of a paused / failed / aborted download: a     *)
+(* download that still has a local path skips the choice                   *)
+(* (transfer/manager.py `if transfer.local_path is None`).                 *)
 (***************************************************************************)
 EXTENDS Naturals, Sequences, FiniteSets, TLC
 
@@ -50,8 +64,11 @@ CONSTANTS
   Reserve,
   AllowAbort,     \* TRUE: downloads may be aborted by the user at any point of their start-up
   ForeignRelease,
-  OrderedArrival  \* TRUE: download d+1 reaches the reservation after download d did (breaks the
+  OrderedArrival, \* TRUE: download d+1 reaches the reservation after download d did (breaks the
                   \*       symmetry of equal downloads; bounds the cancellation configurations)
+  AllowPause, AllowIoError, AllowResume,
+  ForgetUncreated,
+  MaxInterrupts   \* bound on the number of Abort / Pause / IoError steps of a behaviour
 
 MaxIdx == 6
 
@@ -106,9 +123,11 @@ VARIABLES
   chosen,     \* per download: the chosen local path relative to the download directory
               \* (directory components as returned, then the file name), <<>> = none
   fresh,      \* per download: the chosen path did not exist when it was chosen
-  lock        \* holder of the download-path lock (Reserve only), 0 = free
+  lock,       \* holder of the download-path lock (Reserve only), 0 = free
+  made,       \* per download: its local file was created (reserved) by this download
+  nint        \* number of interruptions (Abort / Pause / IoError) so far
 
-vars == <<files, dirs, chain, remote, pc, chosen, fresh, lock>>
+vars == <<files, dirs, chain, remote, pc, chosen, fresh, lock, made, nint>>
 
 IsDirPos(pos) == IF pos.up > 0 THEN pos.at = <<>> ELSE (pos.at = <<>> \/ pos.at \in dirs)
 ExistsPos(pos) == IsDirPos(pos) \/ (pos.up = 0 /\ pos.at \in files)
@@ -203,6 +222,8 @@ Init ==
   /\ chosen = [d \in Downloads |-> <<>>]
   /\ fresh = [d \in Downloads |-> TRUE]
   /\ lock = 0
+  /\ made = [d \in Downloads |-> FALSE]
+  /\ nint = 0
 
 ----------------------------------------------------------------------------
 \* Actions
@@ -220,7 +241,7 @@ Wait(d) ==
   /\ pc[d] = "choose" /\ MayArrive(d)
   /\ Reserve /\ lock # 0
   /\ pc' = [pc EXCEPT ![d] = "wait"]
-  /\ UNCHANGED <<files, dirs, chain, remote, chosen, fresh, lock>>
+  /\ UNCHANGED <<files, dirs, chain, remote, chosen, fresh, lock, made, nint>>
 
 ChooseAs(d, out) ==
   /\ pc[d] \in {"choose", "wait"} /\ (pc[d] = "choose" => MayArrive(d))
@@ -229,14 +250,15 @@ ChooseAs(d, out) ==
   /\ fresh' = [fresh EXCEPT ![d] = ~Exists(out)]
   /\ pc' = [pc EXCEPT ![d] = "mkdir"]
   /\ lock' = IF Reserve THEN d ELSE lock
-  /\ UNCHANGED <<files, dirs, chain, remote>>
+  /\ made' = [made EXCEPT ![d] = FALSE]
+  /\ UNCHANGED <<files, dirs, chain, remote, nint>>
 
 \* the code raises instead of choosing: nothing is chosen, nothing is created
 Refuse(d) ==
   /\ pc[d] \in {"choose", "wait"} /\ (pc[d] = "choose" => MayArrive(d))
   /\ Reserve => lock = 0
   /\ pc' = [pc EXCEPT ![d] = "refused"]
-  /\ UNCHANGED <<files, dirs, chain, remote, chosen, fresh, lock>>
+  /\ UNCHANGED <<files, dirs, chain, remote, chosen, fresh, lock, made, nint>>
 
 Choose(d) ==
   IF Refuses(remote[d]) THEN Refuse(d) ELSE ChooseAs(d, Predict(chain, remote[d]))
@@ -244,9 +266,15 @@ Choose(d) ==
 \* prefixes of a directory position that makedirs has to create
 DirPrefixes(at) == {SubSeq(at, 1, n) : n \in 1..Len(at)}
 
+\* what download d remembers of its path when it leaves the prepare step without a file
+Remembered(d) ==
+  IF ForgetUncreated /\ ~made[d] THEN [chosen EXCEPT ![d] = <<>>] ELSE chosen
+
+\* an OSError inside the prepare step fails the transfer (transfer/manager.py `except OSError`)
 GiveUp(d) ==
   /\ pc' = [pc EXCEPT ![d] = "failed"]
   /\ lock' = IF lock = d THEN 0 ELSE lock
+  /\ chosen' = Remembered(d)
   /\ UNCHANGED <<files, dirs>>
 
 \* shares/manager.py:287-291 create_directory(dirname(local_path)): exists + makedirs in the executor.
@@ -256,13 +284,13 @@ Mkdir(d) ==
   /\ LET pos == Resolve(Front(chosen[d])) IN
        IF pos.up > 0
          THEN /\ pc' = [pc EXCEPT ![d] = IF Reserve THEN "touch" ELSE "start"]   \* ancestors exist
-              /\ UNCHANGED <<files, dirs, lock>>
+              /\ UNCHANGED <<files, dirs, lock, chosen>>
        ELSE IF DirPrefixes(pos.at) \cap files # {}
          THEN GiveUp(d)
        ELSE /\ dirs' = dirs \cup DirPrefixes(pos.at)
             /\ pc' = [pc EXCEPT ![d] = IF Reserve THEN "touch" ELSE "start"]
-            /\ UNCHANGED <<files, lock>>
-  /\ UNCHANGED <<chain, remote, chosen, fresh>>
+            /\ UNCHANGED <<files, lock, chosen>>
+  /\ UNCHANGED <<chain, remote, fresh, made, nint>>
 
 \* open(local_path, 'ab'): creates the file if it is not there; fails on a directory or when
 \* the parent is missing
@@ -280,15 +308,16 @@ Touch(d) ==
        THEN /\ files' = files \cup Created(d)
             /\ pc' = [pc EXCEPT ![d] = "start"]
             /\ lock' = 0
-            /\ UNCHANGED dirs
-       ELSE GiveUp(d)
-  /\ UNCHANGED <<chain, remote, chosen, fresh>>
+            /\ made' = [made EXCEPT ![d] = TRUE]
+            /\ UNCHANGED <<dirs, chosen>>
+       ELSE GiveUp(d) /\ UNCHANGED made
+  /\ UNCHANGED <<chain, remote, fresh, nint>>
 
 \* transfer/manager.py:1103-1104  set_connection_state + state.start_transferring()
 Start(d) ==
   /\ pc[d] = "start"
   /\ pc' = [pc EXCEPT ![d] = "open"]
-  /\ UNCHANGED <<files, dirs, chain, remote, chosen, fresh, lock>>
+  /\ UNCHANGED <<files, dirs, chain, remote, chosen, fresh, lock, made, nint>>
 
 \* transfer/manager.py:1115  aiofiles.open(local_path, 'ab')
 Open(d) ==
@@ -296,31 +325,72 @@ Open(d) ==
   /\ IF CanOpen(d)
        THEN /\ files' = files \cup Created(d)
             /\ pc' = [pc EXCEPT ![d] = "writing"]
-            /\ UNCHANGED <<dirs, lock>>
-       ELSE GiveUp(d)
-  /\ UNCHANGED <<chain, remote, chosen, fresh>>
+            /\ made' = [made EXCEPT ![d] = TRUE]
+            /\ UNCHANGED <<dirs, lock, chosen>>
+       ELSE GiveUp(d) /\ UNCHANGED made
+  /\ UNCHANGED <<chain, remote, fresh, nint>>
 
 \* the transfer ends (COMPLETE / FAILED / INCOMPLETE ...): no longer active
 Finish(d) ==
   /\ pc[d] = "writing"
   /\ pc' = [pc EXCEPT ![d] = "done"]
-  /\ UNCHANGED <<files, dirs, chain, remote, chosen, fresh, lock>>
+  /\ UNCHANGED <<files, dirs, chain, remote, chosen, fresh, lock, made, nint>>
 
-\* The user aborts (pauses, removes) download d: its task is cancelled at its current await, the
-\* lock is released if d holds it (`async with`), the local file is removed and the path forgotten.
+Interruptible(d) == pc[d] \in {"wait", "mkdir", "touch", "start", "open", "writing"}
+Released(d) == IF lock = d \/ (pc[d] = "wait" /\ ForeignRelease) THEN 0 ELSE lock
+
+\* The user aborts (removes) download d: its task is cancelled at its current await, the lock is
+\* released if d holds it (`async with`), the local file is removed and the path forgotten.
 \* ForeignRelease: a waiter's `finally: release()` runs although it never got the lock.
 Abort(d) ==
-  /\ AllowAbort
-  /\ pc[d] \in {"wait", "mkdir", "touch", "start", "open", "writing"}
+  /\ AllowAbort /\ nint < MaxInterrupts
+  /\ Interruptible(d)
   /\ pc' = [pc EXCEPT ![d] = "aborted"]
-  /\ lock' = IF lock = d \/ (pc[d] = "wait" /\ ForeignRelease) THEN 0 ELSE lock
+  /\ lock' = Released(d)
   /\ files' = IF chosen[d] # <<>> THEN files \ Created(d) ELSE files
   /\ chosen' = [chosen EXCEPT ![d] = <<>>]
   /\ fresh' = [fresh EXCEPT ![d] = TRUE]
+  /\ made' = [made EXCEPT ![d] = FALSE]
+  /\ nint' = nint + 1
   /\ UNCHANGED <<dirs, chain, remote>>
 
+\* The user pauses download d: the task is cancelled the same way, nothing is removed
+\* (transfer/state.py InitializingState.pause / DownloadingState.pause)
+Pause(d) ==
+  /\ AllowPause /\ nint < MaxInterrupts
+  /\ Interruptible(d)
+  /\ pc' = [pc EXCEPT ![d] = "paused"]
+  /\ lock' = Released(d)
+  /\ chosen' = IF pc[d] \in {"mkdir", "touch"} THEN Remembered(d) ELSE chosen
+  /\ nint' = nint + 1
+  /\ UNCHANGED <<files, dirs, chain, remote, fresh, made>>
+
+\* create_directory / open inside the prepare step raise an OSError that has nothing to do with
+\* the modelled directory contents (EMFILE, EACCES, ENOSPC ...)
+IoError(d) ==
+  /\ AllowIoError /\ nint < MaxInterrupts
+  /\ pc[d] \in {"mkdir", "touch"}
+  /\ GiveUp(d)
+  /\ nint' = nint + 1
+  /\ UNCHANGED <<chain, remote, fresh, made>>
+
+\* The download is queued again and restarted by the uploader.  transfer/manager.py
+\* _prepare_download_path: a transfer that has a local path skips the calculation and goes on
+\* with that path; otherwise it chooses like a new download.
+Resume(d) ==
+  /\ AllowResume
+  /\ pc[d] \in {"paused", "failed", "aborted"}
+  /\ IF chosen[d] = <<>>
+       THEN /\ pc' = [pc EXCEPT ![d] = "choose"]
+            /\ UNCHANGED lock
+       ELSE /\ Reserve => lock = 0
+            /\ pc' = [pc EXCEPT ![d] = "mkdir"]
+            /\ lock' = IF Reserve THEN d ELSE lock
+  /\ UNCHANGED <<files, dirs, chain, remote, chosen, fresh, made, nint>>
+
 Next == \E d \in Downloads :
-          Choose(d) \/ Wait(d) \/ Mkdir(d) \/ Touch(d) \/ Start(d) \/ Open(d) \/ Finish(d) \/ Abort(d)
+          \/ Choose(d) \/ Wait(d) \/ Mkdir(d) \/ Touch(d) \/ Start(d) \/ Open(d) \/ Finish(d)
+          \/ Abort(d) \/ Pause(d) \/ IoError(d) \/ Resume(d)
 
 Spec == Init /\ [][Next]_vars
 
@@ -331,7 +401,7 @@ TypeOK ==
   /\ chain \in ChainNames
   /\ \A d \in Downloads :
        pc[d] \in {"choose", "wait", "mkdir", "touch", "start", "open", "writing", "done", "refused", "failed",
-                 "aborted"}
+                 "aborted", "paused"}
   /\ lock \in Downloads \cup {0}
 
 HasChosen(d) == chosen[d] # <<>>
